@@ -5,6 +5,7 @@ import (
 	"errors"
 	"fmt"
 	"os"
+	"strings"
 
 	"verif/internal/cli"
 	"verif/internal/core"
@@ -40,13 +41,15 @@ func check(prop, tier string) int {
 	switch prop {
 	case "C08":
 		code, err = rt.RunSeq(prop, tier, gen.ExtraC08(tier))
-	case "C03", "C04", "C07":
+	case "C07":
+		code, err = rt.RunSeq(prop, tier, cli.Subset(prop, tier, func(s cli.Scenario) bool { return s.Prior == "ownstub" }))
+	case "C03", "C04":
 		code, err = rt.RunSeq(prop, tier)
 	case "C16":
 		code, err = gen.RunGen(prop, tier, cli.Subset(prop, tier, func(s cli.Scenario) bool { return s.Prior == "ownnoop" || (s.Prior == "own" && s.Args == "ok") }))
 	case "C14":
 		code, err = gen.RunGen(prop, tier, cli.Subset(prop, tier, func(s cli.Scenario) bool {
-			return (s.Prior == "own" || s.Prior == "ownnoop" || s.Prior == "ownlong") && s.Out == "file" && s.Fault == "none"
+			return strings.HasPrefix(s.Prior, "own") && s.Out != "stdout" && s.Fault == "none"
 		}))
 	case "C01", "C02", "C09", "C10", "C11", "C12", "C13", "C20":
 		code, err = gen.RunGen(prop, tier)
